@@ -54,6 +54,19 @@ def cases(rng, tier):
             gates.append(g)
         j = rng.getrandbits(n) | (1 << rng.choice([9, 10, n - 1]))
         cs.append({"kind": "applyseq", "n": n, "j": j, "es": gates, "no_model": True})
+    # products whose first and last factors are the same gate (palindromes, conjugations g u g, a gate twice), under
+    # every threading model
+    for _ in range(40 if tier == "quick" else 1000):
+        n = rng.randint(1, 5)
+        g = gen.random_gate(rng, n, allow_empty=False)
+        mid = [gen.random_gate(rng, n) for _ in range(rng.randint(0, 3))]
+        gates = [g] + mid + [g]
+        cs.append({"kind": "applyraw", "n": n, "raw": gen.random_state(rng, n), "e": bracket(rng, gates),
+                   "threads": rng.choice([1, 2, 2, 3, 4])})
+        cs.append({"kind": "applyseq", "n": n, "j": rng.randrange(1 << n), "es": gates})
+    for th in (2, 3):
+        for e in (("u3", 1.23456, 0.7, 0.7, 1), ("u2", -0.7, -0.7, 2), ("mul", ("x", 1), ("x", 1)), ("mul", ("mul", ("h", 1), ("z", 1)), ("h", 1))):
+            cs.append({"kind": "applyraw", "n": 3, "raw": gen.random_state(rng, 3), "e": e, "threads": th})
     # empty products (identity, h / qft on the empty mask, products of those) on dense states, both threading models
     for e in (("id",), ("h", 0), ("qft", 0), ("mul", ("id",), ("id",)), ("mul", ("h", 0), ("id",)), ("dgr", ("id",))):
         for th in (1, 2, 4):
